@@ -67,6 +67,13 @@ type c11Ctx struct{ Seen string }
 
 type c11Key struct{}
 
+type c11QC struct {
+	A int     `json:"a"`
+	B int     `json:"b"`
+	C c11Ctx  `json:"c"`
+	P *c11Ctx `json:"p"`
+}
+
 func c11See(ctx context.Context) string {
 	if ctx == nil {
 		return "nil context"
@@ -102,6 +109,7 @@ type c11Dst struct {
 type c11Env struct {
 	q1, q2 *json.FieldQuery
 	q3     *json.FieldQuery // the names of q2 in the same order, but flat
+	q4     *json.FieldQuery // members of c11QC
 	path   *json.Path
 	slot   []interface{} // one interface slot that several calls of a history encode (its address is what matters)
 	encBuf bytes.Buffer
@@ -141,6 +149,7 @@ func newC11Env() *c11Env {
 	e.q1, _ = json.BuildFieldQuery("a", "s")
 	e.q2, _ = json.BuildFieldQuery("m", json.BuildSubFieldQuery("p").Fields("a"))
 	e.q3, _ = json.BuildFieldQuery("m", "p", "a")
+	e.q4, _ = json.BuildFieldQuery("a", "c", "p")
 	e.path, _ = json.CreatePath("$.a.b")
 	e.slot = make([]interface{}, 1)
 	e.enc = json.NewEncoder(&e.encBuf)
@@ -293,6 +302,48 @@ func c11Calls() []c11Call {
 		}},
 		{"MarshalContext(context with a value, context-aware marshaler)", func(e *c11Env) string {
 			return r2(json.MarshalContext(context.WithValue(context.Background(), c11Key{}, "secret"), []interface{}{c11Ctx{}, &c11Ctx{}}))
+		}},
+		{"fresh Decoder.DecodeContext(context with a value, context-aware unmarshalers)", func(e *c11Env) string {
+			v := struct {
+				A c11Ctx
+				I interface{}
+			}{I: &c11Ctx{}}
+			err := json.NewDecoder(strings.NewReader(`{"A":1,"I":2}`)).DecodeContext(context.WithValue(context.Background(), c11Key{}, "secret"), &v)
+			return fmt.Sprintf("%+v %+v %v", v.A, v.I, err)
+		}},
+		// one field query, several parent contexts: what a context-aware marshaler is handed is derived from THIS
+		// call's context every time (the sequence is inside one call of the alphabet because the histories are short;
+		// a wrong element is marked, and a marked cold result is reported)
+		{"MarshalContext x5 with one field query object and five parent contexts", func(e *c11Env) string {
+			var sb strings.Builder
+			for i := 0; i < 5; i++ {
+				want := fmt.Sprintf("t%d", i)
+				ctx := json.SetFieldQueryToContext(context.WithValue(context.Background(), c11Key{}, want), e.q4)
+				out := r2(json.MarshalContext(ctx, c11QC{A: i, C: c11Ctx{}, P: &c11Ctx{}}))
+				sb.WriteString(out + " ")
+				if strings.Count(out, "context value "+want) != 2 {
+					sb.WriteString(fmt.Sprintf(" !! call %d was not handed its own context ", i))
+				}
+			}
+			return sb.String()
+		}},
+		{"MarshalContext x6 with equal field queries built afresh and six parent contexts, indented", func(e *c11Env) string {
+			var sb strings.Builder
+			for i := 0; i < 6; i++ {
+				want := fmt.Sprintf("u%d", i)
+				q, _ := json.BuildFieldQuery("a", "c", "p")
+				ctx := json.SetFieldQueryToContext(context.WithValue(context.Background(), c11Key{}, want), q)
+				var w bytes.Buffer
+				en := json.NewEncoder(&w)
+				en.SetIndent("", " ")
+				err := en.EncodeContext(ctx, c11QC{A: i, C: c11Ctx{}, P: &c11Ctx{}})
+				out := fmt.Sprintf("%s %v", w.String(), err)
+				sb.WriteString(out + " ")
+				if strings.Count(out, "context value "+want) != 2 {
+					sb.WriteString(fmt.Sprintf(" !! call %d was not handed its own context ", i))
+				}
+			}
+			return sb.String()
 		}},
 		{"Marshal(context-aware marshaler)", func(e *c11Env) string {
 			return r2(json.Marshal([]interface{}{c11Ctx{}, &c11Ctx{}}))
@@ -527,6 +578,9 @@ func c11Cold(c *work.Ctx, calls []c11Call) []string {
 	for i := range calls {
 		c11Reset()
 		cold[i] = c11RunCall(&calls[i], newC11Env())
+		if c.Shard == 0 && strings.Contains(cold[i], " !! call ") {
+			c.Violation("self-checking call : "+calls[i].name+" : wrong alone, on cold caches", calls[i].name, clipS(cold[i], 400))
+		}
 		if c.Shard == 0 && strings.HasSuffix(cold[i], c11DoublePut) {
 			c.Violation("pool : "+calls[i].name+" alone puts an object into a pool twice", calls[i].name, cold[i])
 		}
